@@ -50,6 +50,34 @@ var scalarFields = []struct {
 	{"F32", 'f'}, {"F64", 'f'}, {"Str", 's'}, {"B", 'b'},
 }
 
+var twinFields = map[string]bool{"I64": true, "I32": true, "U8": true, "F64": true, "Str": true, "B": true}
+
+// twinA and twinB return pointers to two different struct types that are both called Twin
+// (reflect prints "props.Twin" for either) and hold the same fields in opposite order.
+func twinA(s Scalars) interface{} {
+	type Twin struct {
+		I64 int64
+		I32 int32
+		U8  uint8
+		F64 float64
+		Str string
+		B   bool
+	}
+	return &Twin{s.I64, s.I32, s.U8, s.F64, s.Str, s.B}
+}
+
+func twinB(s Scalars) interface{} {
+	type Twin struct {
+		B   bool
+		Str string
+		F64 float64
+		U8  uint8
+		I32 int32
+		I64 int64
+	}
+	return &Twin{s.B, s.Str, s.F64, s.U8, s.I32, s.I64}
+}
+
 // inject builds the name -> object table. Every call returns fresh, independent objects.
 func (w *ExprWorld) inject() map[string]interface{} {
 	m := map[string]interface{}{}
@@ -65,6 +93,8 @@ func (w *ExprWorld) inject() map[string]interface{} {
 	v := p
 	m["P"] = &p
 	m["V"] = v
+	m["Q1"] = twinA(w.G)
+	m["Q2"] = twinB(w.P.In)
 	m["Z"] = &Scalars{} // every cell zero: zero divisors of every Go numeric kind
 	return m
 }
@@ -233,7 +263,13 @@ func (g *exprGen) injectedName(class byte) string {
 		}
 	}
 	f := fs[uni(g.t, g.lbl("field"), 0, len(fs)-1)]
-	switch uni(g.t, g.lbl("path"), 0, 5) {
+	switch uni(g.t, g.lbl("path"), 0, 7) {
+	case 6, 7:
+		// two struct types that print the same name but lay their fields out differently
+		if twinFields[f] {
+			return []string{"Q1.", "Q2."}[uni(g.t, g.lbl("twin"), 0, 1)] + f
+		}
+		return "g" + f
 	case 0, 1:
 		return "g" + f
 	case 2:
